@@ -695,6 +695,14 @@ func (p Prop) Run(t *testing.T, c *harness.Case, verbose bool) *harness.Result {
 		res.Signature = "liveness:" + res.Outcome
 		return res
 	}
+	r.judge(&w, final, res, verbose)
+	return res
+}
+
+// judge is the history oracle, shared by the simulation and the real-goroutine leg: phantom values, panics,
+// linearizability against the two-dictionary model (final state included).
+func (r *runner) judge(wp *Work, final *rec, res *harness.Result, verbose bool) *harness.Result {
+	w := *wp
 	var ops []porcupine.Operation
 	var hist []string
 	all := []*rec{}
@@ -822,29 +830,43 @@ func RunReal(c *harness.Case) string {
 	}
 	r := &runner{w: &w, modIDs: map[*env.Env]int{}}
 	r.build()
+	r.recs = make([][]*rec, len(w.Clients))
+	for ci, ops := range w.Clients {
+		for _, op := range ops {
+			r.recs[ci] = append(r.recs[ci], &rec{client: ci, op: op})
+		}
+	}
 	var wg sync.WaitGroup
 	start := make(chan struct{})
-	var pmu sync.Mutex
-	msg := ""
-	for ci, ops := range w.Clients {
+	for ci := range w.Clients {
 		wg.Add(1)
-		go func(ci int, ops []Op) {
+		go func(ci int) {
 			defer wg.Done()
 			<-start
-			for _, op := range ops {
-				rc := &rec{client: ci, op: op}
+			for _, rc := range r.recs[ci] {
+				// the stamps come from one counter: if A's return stamp is below B's call stamp, A had
+				// finished before B began; otherwise the two count as concurrent (sound, never stricter
+				// than real time)
+				rc.call = r.tick()
 				r.exec(rc)
-				if strings.HasPrefix(rc.out.Err, "panic:") {
-					pmu.Lock()
-					msg = fmt.Sprintf("%+v: %s", op, rc.out.Err)
-					pmu.Unlock()
-				}
+				rc.ret = r.tick()
+				rc.done = true
 			}
-		}(ci, ops)
+		}(ci)
 	}
 	close(start)
 	wg.Wait()
-	return msg
+	final := &rec{client: len(w.Clients), op: Op{Kind: "ReadAll"}}
+	final.call = r.tick()
+	final.rawSnap, final.rawTypes = snapshotOf(r.S.Copy())
+	final.ret = r.tick()
+	final.done = true
+	res := &harness.Result{Counters: map[string]int{}}
+	r.judge(&w, final, res, false)
+	if res.Violation != "" {
+		return res.Violation + ": " + res.Detail
+	}
+	return ""
 }
 
 func sortedKeys(m map[string]int) []string {
